@@ -134,7 +134,7 @@ def setup(tier):
 def budget(tier):
     if tier == "quick":
         return {"examples": 4000, "shards": 1}
-    return {"examples": 25000, "shards": 16}
+    return {"examples": 12000, "shards": 16}
 
 
 def fuzz_plan(tier):
@@ -147,7 +147,7 @@ def fuzz_plan(tier):
             pass
     if tier == "quick":
         return (1, 30_000)
-    return (16, 600_000)
+    return (16, 250_000)
 
 
 _MISSING = object()
@@ -799,6 +799,8 @@ def start_fuzz(tier, seed):
             sys.executable, "-m", "vf.props.c17_fuzz",
             "--out", f"result{i}.json", "--runs", str(runs), "--fuzz-seed", str((seed * 1000003 + i * 7919 + 5) % (2**31 - 1) or 1),
             "--corpus", f"corpus{i}", "--dict", "dict.txt",
+            # every other campaign of the thorough tier may grow its inputs past the 309-digit exponents
+            "--max-len", "640" if i % 2 else "96",
         ]
         p = subprocess.Popen(cmd, cwd=d, env=env, stdout=log, stderr=subprocess.STDOUT)
         _FUZZ["procs"].append((p, res, log))
@@ -864,7 +866,7 @@ def post(tier, col):
     col.extra["fuzz_executions"] = execs
     col.extra["fuzz_campaigns"] = len(_FUZZ["procs"])
     col.extra["fuzz_address_randomisation_off"] = bool(_FUZZ.get("aslr_off"))
-    col.extra["fuzz_nontrivial_total"] = fuzz_nontrivial
+    col.extra["fuzz_distinct_nontrivial_lower_bound"] = fuzz_nontrivial
     col.extra["registered"] = {label: len(d) for label, d in REGS}
 
 
